@@ -1,6 +1,7 @@
 package main
 
 import (
+	"strconv"
 	"encoding/json"
 	"fmt"
 	"os"
@@ -90,6 +91,10 @@ func cmdVC(args []string) {
 		fatal(err)
 	}
 	keep := os.Getenv("GVC_KEEP") != ""
+	tmo := 10000
+	if v, err := strconv.Atoi(os.Getenv("GVC_TIMEOUT_MS")); err == nil && v > 0 { // development aid
+		tmo = v
+	}
 	for _, key := range args {
 		fn := w.Funcs[key]
 		if fn == nil {
@@ -106,7 +111,7 @@ func cmdVC(args []string) {
 		if keep {
 			dir = "/var/tmp"
 		}
-		res, errs := solveVC(vc, dir, 10000, false)
+		res, errs := solveVC(vc, dir, tmo, false)
 		if errs != "" {
 			fmt.Printf("  solver errors: %s\n", errs)
 		}
